@@ -119,6 +119,7 @@ pub fn check(sc: &ConnScenario, out: &ConnOutcome, rep: &mut RunReport) {
         }
         return;
     }
+    check_service_addresses(sc, out, rep);
     let enc_req = out.view.first("EncryptionRequest");
     let login_success = out.view.first("LoginSuccess");
     let auth_cookie_out = auth_store_cookie(out);
